@@ -159,7 +159,13 @@ impl Literal {
         check_type(&mut expr, ty)
             .map_err(|errs| errs.into_iter().flatten().collect::<Vec<TypeError>>())?;
         expr.ty = ty.clone();
-        Ok(expr.into_literal())
+        // (identifiers of consts and const-sized repeat counts type-check, but are no literals)
+        expr.into_literal().map_err(|meta| {
+            CompileTimeError::ParseError(vec![crate::parse::ParseError(
+                crate::parse::ParseErrorEnum::InvalidLiteral,
+                meta,
+            )])
+        })
     }
 
     /// Checks whether the literal is of the specified types, looking up enum defs in the program.
@@ -685,13 +691,14 @@ impl crate::UntypedExpr {
 }
 
 impl TypedExpr {
-    fn into_literal(self) -> Literal {
+    /// Converts a type-checked literal expr (or returns the location of the part that is no literal).
+    fn into_literal(self) -> Result<Literal, crate::token::MetaInfo> {
         let Expr {
             inner: expr_enum,
             ty,
-            ..
+            meta,
         } = self;
-        match expr_enum {
+        Ok(match expr_enum {
             ExprEnum::True => Literal::True,
             ExprEnum::False => Literal::False,
             ExprEnum::NumUnsigned(n, _) => {
@@ -713,33 +720,42 @@ impl TypedExpr {
                 }
             }
             ExprEnum::ArrayRepeatLiteral(elem, size) => {
-                Literal::ArrayRepeat(Box::new(elem.into_literal()), size)
+                Literal::ArrayRepeat(Box::new(elem.into_literal()?), size)
             }
-            ExprEnum::ArrayLiteral(elems) => {
-                Literal::Array(elems.into_iter().map(|e| e.into_literal()).collect())
-            }
-            ExprEnum::TupleLiteral(fields) => {
-                Literal::Tuple(fields.into_iter().map(|f| f.into_literal()).collect())
-            }
+            ExprEnum::ArrayLiteral(elems) => Literal::Array(
+                elems
+                    .into_iter()
+                    .map(|e| e.into_literal())
+                    .collect::<Result<_, _>>()?,
+            ),
+            ExprEnum::TupleLiteral(fields) => Literal::Tuple(
+                fields
+                    .into_iter()
+                    .map(|f| f.into_literal())
+                    .collect::<Result<_, _>>()?,
+            ),
             ExprEnum::StructLiteral(struct_name, fields) => Literal::Struct(
                 struct_name,
                 fields
                     .into_iter()
-                    .map(|(name, value)| (name, value.into_literal()))
-                    .collect(),
+                    .map(|(name, value)| Ok((name, value.into_literal()?)))
+                    .collect::<Result<_, _>>()?,
             ),
             ExprEnum::EnumLiteral(name, variant_name, variant) => {
                 let variant = match variant {
                     VariantExprEnum::Unit => VariantLiteral::Unit,
                     VariantExprEnum::Tuple(fields) => VariantLiteral::Tuple(
-                        fields.into_iter().map(|f| f.into_literal()).collect(),
+                        fields
+                            .into_iter()
+                            .map(|f| f.into_literal())
+                            .collect::<Result<_, _>>()?,
                     ),
                 };
                 Literal::Enum(name, variant_name.clone(), variant)
             }
             ExprEnum::Range(min, max, num_ty) => Literal::Range(min, max, num_ty),
-            _ => unreachable!("This should result in a literal parse error instead"),
-        }
+            _ => return Err(meta),
+        })
     }
 }
 
